@@ -275,6 +275,11 @@ fn oracle(bytes: &[u8], check_path: bool, info: &mut CaseInfo) -> Result<bool, S
     }
 }
 
+/// Entry point for the coverage-guided fuzz target (no temp file).
+pub fn check_bytes(bytes: &[u8]) -> Result<(), String> {
+    oracle(bytes, false, &mut CaseInfo::default()).map(|_| ())
+}
+
 fn case_mutated(t: &mut Tape, info: &mut CaseInfo) -> Result<(), String> {
     let mut labels = Vec::new();
     let base = match t.weighted(&[5, 2, 1]) {
